@@ -526,6 +526,20 @@ def ll_oracle(c, r):
             bad.append((f'total-{col}', 'calculate_likelihood is not the sum over individuals of the log of their value', s, tot))
         if not abs(sc * N - tot) <= TOL_F * mag:
             bad.append((f'scaled-{col}', f'scaled log likelihood is not total / number of individuals ({N})', tot / N, sc))
+        # every quantity of calculate_likelihood_and_derivatives: scaled = unscaled / number of individuals
+        du, ds = r[llk]['v'].get('d_unscaled'), r[llk]['v'].get('d_scaled')
+        if du and ds:
+            if not abs(fl(du['function']) - s) <= TOL_F * mag:
+                bad.append((f'derivatives-total-{col}', 'calculate_likelihood_and_derivatives(scaled=False).function is not '
+                            'the sum over individuals of the log of their value', s, fl(du['function'])))
+            for name in ('function', 'gradient', 'hessian', 'bhhh'):
+                u = [fl(du[name])] if name == 'function' else [fl(v) for v in du[name]]
+                w = [fl(ds[name])] if name == 'function' else [fl(v) for v in ds[name]]
+                if len(u) != len(w) or any(not abs(b_ * N - a) <= 1e-11 * max(1.0, abs(a)) for a, b_ in zip(u, w)):
+                    bad.append((f'scaled-derivatives-{col}-{name}',
+                                f'calculate_likelihood_and_derivatives(scaled=True).{name} is not the unscaled {name} divided by '
+                                f'the number of individuals ({N}; the table has {len(c["ids"])} rows)',
+                                [a / N for a in u], w))
     if r['sample_size']['v'] != N:
         bad.append(('sample-size', 'get_sample_size() is not the number of individuals', N, r['sample_size']['v']))
     if r['n_obs']['ok'] and r['n_obs']['v'] != len(c['ids']):
@@ -647,6 +661,9 @@ def hist_oracle(c, r):
                                 sim['loglike'][j]))
     if r['sample_size']['ok'] and r['sample_size']['v'] != N:
         bad.append(('sample-size', 'get_sample_size() is not the number of individuals', N, r['sample_size']['v']))
+    if r.get('results_sizes') and r['results_sizes'] != [N, len(c['ids'])]:
+        bad.append(('results-sample-size', 'estimation results: sample size / number of observations are not (individuals, rows)',
+                    [N, len(c['ids'])], r['results_sizes']))
     return bad
 
 
@@ -672,6 +689,353 @@ HIST_HEADER = (
     "  let '(prow, otraj, m, ss) := c in\n"
     '  close_all tol otraj (model_plain prow) && list_eqb block_eqb m (build_map (ids_of prow))\n'
     '  && Nat.eqb ss (sample_size (ids_of prow)).\n'
+)
+
+
+# ---- history kind 'steps': one Database object; declarations on two identifier columns (persons pid,
+# households hid; a declaration may have to be refused), direct edits of database.data, evaluations through
+# every entry point.  The harness replays the history on a plain list of rows (class Sim); the Coq model
+# (run through chk_steps) replays it on Model/Panel.v's state machine.
+LIST_ENTRIES = ('gv_plain', 'gvd_plain', 'vfd', 'gv_mc', 'bio_sim')
+TOTAL_ENTRIES = ('gvd_sum', 'cf_call', 'bio_ll')
+
+
+class Sim:
+    def __init__(self, c):
+        self.c = c
+        self.rows = [{'pid': p, 'hid': h, 'x': x, 'y': y} for p, h, x, y in
+                     zip(c['cols']['pid'], c['cols']['hid'], c['x'], c['y'])]
+        self.col = None
+
+    def resort(self):
+        if self.col:
+            self.rows.sort(key=lambda r: r[self.col])   # stable
+
+    def panel(self, col):
+        ok = contiguous([r[col] for r in self.rows])
+        if ok:
+            self.col = col
+            self.resort()
+        return ok
+
+    def edit(self, st):
+        op = st['op']
+        if op == 'append':
+            self.rows += [{'pid': r[0], 'hid': r[1], 'x': r[2], 'y': r[3]} for r in st['rows']]
+        elif op == 'setid':
+            for r in self.rows:
+                if r[st['col']] == st['from']:
+                    r[st['col']] = st['to']
+        elif op == 'dropids':
+            self.rows = [r for r in self.rows if r[st['col']] not in st['ids']]
+        elif op == 'droprows':
+            self.rows = [r for r in self.rows if r['x'] not in st['x']]
+        elif op == 'permute':
+            self.rows = [self.rows[k] for k in st['perm']]
+
+    def as_case(self):
+        return {'ids': [r[self.col] for r in self.rows], 'x': [r['x'] for r in self.rows],
+                'y': [r['y'] for r in self.rows], 'kind': self.c['kind'], 'beta': self.c['beta'], 'R': self.c['R']}
+
+    def blocks(self):
+        ids = [r[self.col] for r in self.rows]
+        return [[i, ids.index(i), len(ids) - 1 - ids[::-1].index(i)] for i in sorted(set(ids))]
+
+
+def gen_steps_case(rng, kmax, smax, flavour):
+    K = rng.randint(2, kmax)
+    pvals, scale, dtype = gen_id_values(rng, K, rng.choice(['small', 'neg', 'float', 'dense', 'small']))
+    pvals = order_values(rng, pvals)
+    sizes = gen_sizes(rng, K, smax)
+    # households: consecutive persons share a household; sometimes a household identifier comes back later
+    hpool = rng.sample(range(-40, 120), K + 6)
+    hvals, h = [], 0
+    for k in range(K):
+        if k and rng.random() < 0.55:
+            h += 1
+        hvals.append(hpool[h] * (scale if dtype == 'float' and rng.random() < 0.5 else 1))
+    if K >= 3 and rng.random() < 0.3:
+        hvals[-1] = hvals[0]
+    pid = blocks_to_column(pvals, sizes)
+    hid = blocks_to_column(hvals, sizes)
+    n = len(pid)
+    xpool = rng.sample(range(0, 150), n + 12)                 # distinct x in the whole history
+    x = [(2 * j + 9) / 16.0 for j in xpool[:n]]
+    fresh_x = [(2 * j + 9) / 16.0 for j in xpool[n:]]
+    y = dyadic_column(rng, n) if n <= 50 else [(2 * rng.randrange(60) + 9) / 16.0 for _ in range(n)]
+    c = {'history': 'steps', 'cols': {'pid': pid, 'hid': hid}, 'scale': scale, 'dtype': dtype, 'x': x, 'y': y,
+         'kind': rng.choice(['x', 'bx', 'xpby', 'xpby']), 'beta': rng.choice([0.5, 0.75, 1.25, 1.5, 2.0]),
+         'R': rng.choice([1, 2, 3, 5]), 'threads': rng.choice([1, 2, 3, 4]), 'variant': f'steps-{flavour}',
+         'ids': pid}
+    sim = Sim(c)
+    steps = []
+
+    def add(st):
+        steps.append(st)
+        if st['do'] == 'panel':
+            sim.panel(st['col'])
+        elif st['do'] == 'edit':
+            sim.edit(st)
+        else:
+            sim.resort()
+
+    def some_eval(first=None):
+        entries = LIST_ENTRIES + TOTAL_ENTRIES + ('cf_make',)
+        add({'do': 'eval', 'entry': first or rng.choice(entries)})
+
+    def some_edit():
+        ids_now = sorted({r[sim.col or 'pid'] for r in sim.rows})
+        col = sim.col or 'pid'
+        other = 'hid' if col == 'pid' else 'pid'
+        kind = rng.choice(['append_small', 'append_large', 'append_middle', 'append_existing', 'merge', 'relabel',
+                           'dropids', 'droprows', 'permute'])
+        allv = {r['pid'] for r in sim.rows} | {r['hid'] for r in sim.rows}
+        def newid(where):
+            if where == 'small':
+                return min(allv) - rng.randint(1, 5)
+            if where == 'large':
+                return max(allv) + rng.randint(1, 5)
+            cands = [v for v in range(min(ids_now), max(ids_now)) if v not in allv]
+            return rng.choice(cands) if cands else max(allv) + 1
+        if kind.startswith('append') and fresh_x and len(ids_now) < 24:
+            m = rng.randint(1, 3)
+            if kind == 'append_existing':
+                i = rng.choice(ids_now)
+                o = next(r[other] for r in sim.rows if r[col] == i)
+            else:
+                i = newid(kind.split('_')[1])
+                o = rng.choice([newid('large'), rng.choice([r[other] for r in sim.rows])])
+            rows = []
+            for _ in range(min(m, len(fresh_x))):
+                xv = fresh_x.pop()
+                yv = (2 * rng.randrange(60) + 9) / 16.0
+                rows.append([i, o, xv, yv] if col == 'pid' else [o, i, xv, yv])
+            add({'do': 'edit', 'op': 'append', 'rows': rows})
+        elif kind == 'merge' and len(ids_now) >= 2:
+            a, b_ = rng.sample(ids_now, 2)
+            add({'do': 'edit', 'op': 'setid', 'col': col, 'from': a, 'to': b_})
+        elif kind == 'relabel':
+            add({'do': 'edit', 'op': 'setid', 'col': col, 'from': rng.choice(ids_now),
+                 'to': newid(rng.choice(['small', 'large', 'middle']))})
+        elif kind == 'dropids' and len(ids_now) >= 2:
+            add({'do': 'edit', 'op': 'dropids', 'col': col, 'ids': rng.sample(ids_now, rng.randint(1, len(ids_now) - 1))})
+        elif kind == 'droprows' and len(sim.rows) >= 2:
+            xs = [r['x'] for r in rng.sample(sim.rows, rng.randint(1, max(1, len(sim.rows) // 3)))]
+            add({'do': 'edit', 'op': 'droprows', 'x': xs})
+        else:
+            perm = list(range(len(sim.rows)))
+            rng.shuffle(perm)
+            add({'do': 'edit', 'op': 'permute', 'perm': perm})
+
+    add({'do': 'panel', 'col': 'pid'})
+    if flavour == 'repanel':
+        if rng.random() < 0.5:
+            some_eval()
+        seq = rng.choice([['hid'], ['hid', 'pid'], ['pid', 'hid'], ['hid', 'hid'], ['pid']])
+        for col in seq:
+            add({'do': 'panel', 'col': col})
+            if rng.random() < 0.5:
+                some_eval()
+        for e in rng.sample(LIST_ENTRIES + TOTAL_ENTRIES, 3):
+            some_eval(e)
+    else:
+        if rng.random() < 0.5:
+            some_eval()                       # a map and draws exist from an earlier evaluation
+        if flavour == 'mixed' and rng.random() < 0.5:
+            add({'do': 'panel', 'col': 'hid'})
+        for _ in range(rng.randint(1, 2)):
+            some_edit()
+        first = rng.choice(LIST_ENTRIES + TOTAL_ENTRIES)      # every entry point gets to be the first after an edit
+        some_eval(first)
+        for e in rng.sample(LIST_ENTRIES + TOTAL_ENTRIES, 2):
+            some_eval(e)
+        if flavour == 'mixed':
+            if rng.random() < 0.6:
+                add({'do': 'panel', 'col': rng.choice(['pid', 'hid'])})
+            if rng.random() < 0.6:
+                some_edit()
+            some_eval(rng.choice(LIST_ENTRIES))
+            some_eval()
+    some_eval('gv_plain')
+    c['steps'] = steps
+    return c
+
+
+def steps_oracle(c, r):
+    """Replays the history on plain rows and states the property at every step."""
+    bad = []
+    if 'runner' in r:
+        return [('runner-exception', f"{r['runner']}", None, r['runner'])], []
+    sim = Sim(c)
+    notes = []
+    last = 'start'
+    for k, (st, o) in enumerate(zip(c['steps'], r['steps'])):
+        after = o.get('after', {}).get('v') or {}
+        where = f"step {k} ({st['do']} {st.get('col') or st.get('entry') or st.get('op')})"
+        if st['do'] == 'panel':
+            want = sim.panel(st['col'])
+            if want and not o['ok']:
+                bad.append(('declaration-refused-contiguous', f"{where}: Database.panel refused a column whose individuals are "
+                            f"contiguous ({o.get('exc')}: {o.get('msg')})", 'accepted', o))
+            if not want and o['ok']:
+                bad.append(('declaration-accepted-noncontiguous', f'{where}: Database.panel accepted (or ignored) a declaration on a '
+                            f'column where an individual is split', 'BiogemeError', 'accepted'))
+            if after.get('col') != sim.col:
+                bad.append(('declared-column', f'{where}: the data are declared as panel on {sim.col}, the database follows '
+                            f"{after.get('col')}", sim.col, after.get('col')))
+            last = 'after-declaration'
+            continue
+        if st['do'] == 'edit':
+            if not o['ok']:
+                notes.append(f'{where}: the edit itself failed in pandas: {o}')
+                return bad, notes
+            sim.edit(st)
+            last = 'after-edit'
+            continue
+        entry = st['entry']
+        if sim.col is None:
+            last = 'repeat'
+            continue
+        if entry == 'cf_make':
+            if not o['ok']:
+                bad.append((f'steps-exception-{entry}', f"{where}: {o.get('exc')}: {o.get('msg')}", 'made', o))
+            continue
+        sim.resort()
+        cc = sim.as_case()
+        inds, plain, mc = expected(cc)
+        N = len(inds)
+        key = f'steps-{entry}-{last}'
+        last = 'repeat'
+        if not o['ok']:
+            bad.append((f'steps-exception-{entry}', f"{where}: evaluation raised {o.get('exc')}: {o.get('msg')}",
+                        [str(plain[i]) for i in inds], o))
+            continue
+        v = o['v']
+        logs = [math.log(plain[i]) for i in inds]
+        S, mag = math.fsum(logs), N + sum(abs(t) for t in logs)
+
+        def fl(t):
+            return float(Fraction(t[0], t[1])) if isinstance(t, list) else float('nan')
+
+        def cmp_list(obs, want_vals, what):
+            if len(obs) != N or any(not closeF(frac(a), w) for a, w in zip(obs, want_vals)):
+                bad.append((key, f'{where}: {what} is not, per individual of the CURRENT table on column {sim.col}, the '
+                            f'product over exactly its rows (individuals {inds})', [str(w) for w in want_vals], obs))
+        if entry in ('gv_plain', 'gvd_plain', 'vfd'):
+            cmp_list(v, [plain[i] for i in inds], entry)
+        elif entry == 'gv_mc':
+            cmp_list(v, [mc[i][j] for j, i in enumerate(inds)], 'MonteCarlo(trajectory) through get_value_c')
+        elif entry == 'bio_sim':
+            if v['index'] != inds:
+                bad.append((key, f'{where}: simulate does not return one row per individual of column {sim.col}', inds, v['index']))
+            else:
+                cmp_list(v['plain'], [plain[i] for i in inds], 'simulate(trajectory)')
+                cmp_list(v['mc'], [mc[i][j] for j, i in enumerate(inds)], 'simulate(MonteCarlo(trajectory))')
+        elif entry in ('gvd_sum', 'cf_call'):
+            if not abs(fl(v) - S) <= TOL_F * mag:
+                bad.append((key, f'{where}: {entry} is not the sum over the individuals of the current table of the log of their '
+                            f'product', S, fl(v)))
+        elif entry == 'bio_ll':
+            if not abs(fl(v['unscaled']) - S) <= TOL_F * mag or not abs(fl(v['scaled']) * N - S) <= TOL_F * mag:
+                bad.append((key, f'{where}: BIOGEME log likelihood (unscaled, scaled) is not (S, S/{N})', [S, S / N],
+                            [fl(v['unscaled']), fl(v['scaled'])]))
+        if after:
+            if after.get('map') != sim.blocks():
+                bad.append((f'steps-map-{entry}', f'{where}: the map of the individuals after the evaluation is not the map of the '
+                            f'current table', sim.blocks(), after.get('map')))
+            if after.get('sample_size') != N:
+                bad.append((f'steps-sample-size-{entry}', f'{where}: sample size after the evaluation', N, after.get('sample_size')))
+            if entry in ('gv_mc', 'bio_sim') and (after.get('draws_shape') or [None])[0] != N:
+                bad.append((f'steps-draws-rows-{entry}', f'{where}: the draws table does not have one series per individual', N,
+                            after.get('draws_shape')))
+            if after.get('xs') != [rw['x'] for rw in sim.rows]:
+                notes.append(f'{where}: row order differs from the stable sort (informative)')
+    return bad, notes
+
+
+def coq_steps_case(c, r):
+    """the history for the Coq state machine (chk_steps); None when not encodable"""
+    if 'runner' in r or len(r.get('steps', [])) != len(c['steps']):
+        return None
+    sim = Sim(c)
+
+    def rows_term(rows):
+        cc = {'x': [rw['x'] for rw in rows], 'y': [rw['y'] for rw in rows], 'kind': c['kind'], 'beta': c['beta']}
+        rv = rowvals(cc)
+        return coq_list([f"([({rw['pid']}); ({rw['hid']})], ({coq_Q(p0)}, ({coq_Q(p)}, {coq_Q(q)})))"
+                         for rw, (p0, p, q) in zip(rows, rv)], ';\n  ')
+
+    colno = {'pid': 0, 'hid': 1}
+    init = rows_term(sim.rows)
+    out = []
+    for st, o in zip(c['steps'], r['steps']):
+        after = o.get('after', {}).get('v') or {}
+        if st['do'] == 'panel':
+            out.append(f"SPanel {colno[st['col']]}%nat {'true' if o['ok'] else 'false'}")
+            sim.panel(st['col'])
+        elif st['do'] == 'edit':
+            if not o['ok']:
+                return None
+            sim.edit(st)
+            out.append(f'SEdit {rows_term(sim.rows)}')
+        else:
+            entry = st['entry']
+            if entry == 'cf_make' or sim.col is None:
+                continue
+            sim.resort()
+            inds = sorted({rw[sim.col] for rw in sim.rows})
+            op = om = 'None'
+            if o['ok']:
+                v = o['v']
+                def obs(vals):
+                    if len(vals) != len(inds) or any(not isinstance(t, list) for t in vals):
+                        return None
+                    return 'Some ' + coq_obs(inds, vals)
+                if entry in ('gv_plain', 'gvd_plain', 'vfd'):
+                    op = obs(v)
+                elif entry == 'gv_mc':
+                    om = obs(v)
+                elif entry == 'bio_sim':
+                    op, om = obs(v['plain']), obs(v['mc'])
+                if op is None or om is None:
+                    return None
+            elif entry in LIST_ENTRIES:
+                return None
+            out.append(f"SEval {c['R']}%nat ({op}) ({om})")
+            if entry in ('gv_mc', 'bio_sim') and after.get('draws_shape'):
+                out.append(f"SDraws {after['draws_shape'][0]}%nat")
+        if after.get('map') is not None and sim.col is not None:
+            if any(e[0] is None for e in after['map']):
+                return None
+            m = coq_list([f'(({e[0]}), {e[1]}%nat, {e[2]}%nat)' for e in after['map']])
+            out.append(f"SMap {m} {after.get('sample_size', 0)}%nat")
+    return f"({init},\n [{'; '.join(out)}])"
+
+
+STEPS_HEADER = (
+    'From Coq Require Import ZArith List QArith Bool.\nFrom BV Require Import Model.Panel.\nImport ListNotations.\n'
+    'Open Scope Z_scope.\n'
+    'Definition tol : Q := Qmake 1 1000000000000.\n'
+    'Definition P : Type := (Q * (Q * Q))%type.\n'
+    'Inductive sstep : Type :=\n'
+    '| SPanel (c : nat) (obs : bool) | SEdit (t : list (@hrow P))\n'
+    '| SEval (R : nat) (oplain omc : option (list (Z * Q))) | SMap (m : list block) (ss : nat) | SDraws (n : nat).\n'
+    'Definition to_plain (c : nat) (t : list (@hrow P)) : list Qrow := map (fun r => (hkey c r, (fst (snd r), 0%Q))) t.\n'
+    'Definition to_mc (c : nat) (t : list (@hrow P)) : list Qrow := map (fun r => (hkey c r, snd (snd r))) t.\n'
+    'Fixpoint chk_steps (s : @pstate P) (l : list sstep) : bool :=\n'
+    '  match l with\n  | [] => true\n  | st :: tl =>\n    match st with\n'
+    '    | SPanel c obs => Bool.eqb obs (panel_accepts s c) && chk_steps (step s (OpPanel c)) tl\n'
+    '    | SEdit t => chk_steps (step s (OpEdit t)) tl\n'
+    '    | SEval R op om =>\n'
+    '        let s1 := prepare_eval s in\n'
+    '        match st_col s1 with\n        | None => false\n        | Some c =>\n'
+    '            (match op with None => true | Some o => close_all tol o (model_plain (to_plain c (st_table s1))) end)\n'
+    '            && (match om with None => true | Some o => close_all tol o (model_mc R (to_mc c (st_table s1))) end)\n'
+    '            && chk_steps s1 tl\n        end\n'
+    '    | SMap m ss => list_eqb block_eqb m (st_map s) && Nat.eqb ss (List.length (st_map s)) && chk_steps s tl\n'
+    '    | SDraws n => Nat.eqb n (st_draws s) && chk_steps s tl\n'
+    '    end\n  end.\n'
+    'Definition chk (c : list (@hrow P) * list sstep) : bool := chk_steps (fresh (fst c)) (snd c).\n'
 )
 
 
@@ -725,7 +1089,11 @@ def stream_panel_ll(ctx):
                     '1-16 draws; 1-4 threads; each base case also with individuals permuted, rows permuted inside '
                     'individuals, both, and identifiers negated (reverse order); paths simulate / calculate_likelihood / '
                     'get_value_c; plus histories: one BIOGEME object, estimate(run_bootstrap=True) completed / interrupted by a fault '
-                    'injected in the k-th optimize call (k>=2), then likelihood and simulate on the same object; non-trivial = at least 2 individuals and one individual with >= 2 rows; distinct by full case')
+                    'injected in the k-th optimize call (k>=2), then likelihood and simulate on the same object; and one Database object with '
+                    'declarations on two identifier columns (persons / households, some to be refused), direct edits of database.data '
+                    '(append small/large/middle/existing individual, merge, relabel, drop individuals / rows, permute) and evaluations through '
+                    'get_value_c, get_value_and_derivatives, values_from_database, create_function, BIOGEME simulate / likelihood, every one of '
+                    'them as the first evaluation after an edit or a declaration; scaled and unscaled derivatives; non-trivial = at least 2 individuals and one individual with >= 2 rows; distinct by full case')
     rng = ctx.sub_rng('panel_ll')
     groups = []
     for c in load_corpus('ll'):
@@ -736,35 +1104,61 @@ def stream_panel_ll(ctx):
     for _ in range(ctx.n(4, 30)):
         for c in gen_hist_cases(rng, ctx.n(7, 12), ctx.n(3, 6)):
             groups.append([c])
+    for k in range(ctx.n(15, 240)):
+        groups.append([gen_steps_case(rng, ctx.n(6, 12), ctx.n(3, 5), ('edit', 'repanel', 'mixed')[k % 3])])
     cases = [c for g in groups for c in g]
     res = run_impl(ctx, 'c09_ll.py', cases,
                    lambda msg: {'runner': {'ok': False, 'exc': 'subprocess died', 'msg': msg}})
-    items, hitems = [], []
+    items, hitems, sitems = [], [], []
+    step_notes = 0
     for idx, (c, r) in enumerate(zip(cases, res)):
         sizes = [len(rows) for _, rows in blocks_of(c)]
         st.record(c, nontrivial=len(sizes) >= 2 and max(sizes) >= 2)
-        hist = c.get('history') == 'bootstrap'
-        for what, detail, exp, obs in (hist_oracle(c, r) if hist else ll_oracle(c, r)):
+        hist = c.get('history')
+        if hist == 'steps':
+            found, notes = steps_oracle(c, r)
+            step_notes += len(notes)
+            found = [f + (None,) * (4 - len(f)) for f in found]
+        elif hist == 'bootstrap':
+            found = hist_oracle(c, r)
+        else:
+            found = ll_oracle(c, r)
+        for what, detail, exp, obs in found:
             ctx.violation(f'C09/panel_ll/{what}', detail,
-                          {'stream': 'panel_ll', 'case': c, 'table': {'pid': c['ids'], 'x': c['x'], 'y': c['y']}},
+                          {'stream': 'panel_ll', 'case': c,
+                           'table': {'pid': c['ids'], 'x': c['x'], 'y': c['y'], **({'hid': c['cols']['hid']} if hist == 'steps' else {})}},
                           exp, obs, how='./check C09 --replay <this file>')
-        t = coq_hist_case(c, r) if hist else coq_ll_case(c, r)
+        t = coq_steps_case(c, r) if hist == 'steps' else coq_hist_case(c, r) if hist == 'bootstrap' else coq_ll_case(c, r)
         if t is None:
             st.disagree(c, 'per-individual values', r, 'implementation output not encodable (exception / non-finite value)')
             continue
-        (hitems if hist else items).append((idx, t))
+        (sitems if hist == 'steps' else hitems if hist == 'bootstrap' else items).append((idx, t))
     pos = 0
     for g in groups:
         cross_variant_oracle(ctx, list(zip(g, res[pos:pos + len(g)])))
         pos += len(g)
     verdict = run_coq_bools(ctx, st, 'pll', LL_HEADER, items, 60)
     verdict.update(run_coq_bools(ctx, st, 'phist', HIST_HEADER, hitems, 60))
+    verdict.update(run_coq_bools(ctx, st, 'psteps', STEPS_HEADER, sitems, 30))
     for idx, b in verdict.items():
         if not b:
             st.disagree(cases[idx], 'model_plain / model_mc / build_map / sample_size over Q (relative 1e-12)', res[idx])
     st.extra['variants'] = {k: sum(1 for c in cases if c.get('variant') == k)
                             for k in ('base', 'ind', 'rows', 'both', 'relabel', 'corpus', 'bootstrap-completed',
-                                      'bootstrap-interrupted')}
+                                      'bootstrap-interrupted', 'steps-edit', 'steps-repanel', 'steps-mixed')}
+    st.extra['steps_history'] = {'cases': len(sitems), 'row_order_notes': step_notes,
+                                 'declarations_refused': sum(1 for c, r in zip(cases, res) if c.get('history') == 'steps'
+                                                             for o_, s_ in zip(r.get('steps', []), c['steps'])
+                                                             if s_['do'] == 'panel' and not o_.get('ok')),
+                                 'first_entry_after_edit': {}}
+    for c in cases:
+        if c.get('history') == 'steps':
+            prev = None
+            for s_ in c['steps']:
+                if s_['do'] == 'eval' and prev == 'edit':
+                    d_ = st.extra['steps_history']['first_entry_after_edit']
+                    d_[s_['entry']] = d_.get(s_['entry'], 0) + 1
+                prev = s_['do']
     st.extra['history_estimate_outcomes'] = {}
     for c, r in zip(cases, res):
         if c.get('history') == 'bootstrap' and isinstance(r.get('estimate'), dict):
@@ -797,7 +1191,10 @@ def replay(ctx, path):
         bad = map_oracle(c, r)
     else:
         r = ctx.impl('c09_ll.py', [c])[0]
-        bad = [b[:2] for b in (hist_oracle(c, r) if c.get('history') == 'bootstrap' else ll_oracle(c, r))]
+        if c.get('history') == 'steps':
+            bad = [b[:2] for b in steps_oracle(c, r)[0]]
+        else:
+            bad = [b[:2] for b in (hist_oracle(c, r) if c.get('history') == 'bootstrap' else ll_oracle(c, r))]
         if wit.get('base'):
             class V:  # collect cross-variant violations without touching the verdict machinery
                 def __init__(self):
